@@ -85,17 +85,27 @@ Print Assumptions C12_sonar_reader.
 Example C12_sonar_example : wf_sonar w_doc = true /\ length (sonar_spec w_doc) = 2.
 Proof. split; vm_compute; reflexivity. Qed.
 
-(** SARIF and DefectDojo readers: whenever the reader does not raise, it files exactly the reference extraction
-    (_partial: the documents on which the readers raise are not characterised here; the harness observes them). *)
-Theorem C12_semgrep_reader_partial : forall doc fs, semgrep_reader doc = Some fs -> fs = semgrep_spec doc.
-Proof. exact semgrep_reader_sound. Qed.
-Print Assumptions C12_semgrep_reader_partial.
-Theorem C12_codeql_reader_partial : forall doc fs, codeql_reader doc = Some fs -> fs = codeql_spec doc.
-Proof. exact codeql_reader_sound. Qed.
-Print Assumptions C12_codeql_reader_partial.
-Theorem C12_dd_reader_partial : forall doc fs, dd_reader doc = Some fs -> fs = dd_spec doc.
-Proof. exact dd_reader_sound. Qed.
-Print Assumptions C12_dd_reader_partial.
+(** SARIF and DefectDojo readers, full statement: a reader either raises -- exactly when some run, result or location
+    is individually unreadable ([readable_*], Spec/SarifSpec.v) -- or files exactly the reference extraction: every
+    location of every result of every run (of that tool).  Nothing is ever skipped silently. *)
+Theorem C12_semgrep_reader : forall doc,
+  semgrep_reader doc = if readable_semgrep doc then Some (semgrep_spec doc) else None.
+Proof. exact semgrep_reader_exact. Qed.
+Print Assumptions C12_semgrep_reader.
+Theorem C12_codeql_reader : forall doc,
+  codeql_reader doc = if readable_codeql doc then Some (codeql_spec doc) else None.
+Proof. exact codeql_reader_exact. Qed.
+Print Assumptions C12_codeql_reader.
+Theorem C12_dd_reader : forall doc, dd_reader doc = if readable_dd doc then Some (dd_spec doc) else None.
+Proof. exact dd_reader_exact. Qed.
+Print Assumptions C12_dd_reader.
+(** Non-vacuity: a readable two-location SARIF document, one with an unreadable location, and the DefectDojo analogue. *)
+Example C12_sarif_example :
+  readable_semgrep w_sarif = true /\ length (semgrep_spec w_sarif) = 2 /\
+  readable_codeql w_sarif = true /\ length (codeql_spec w_sarif) = 2 /\
+  readable_semgrep w_sarif_bad = false /\ semgrep_reader w_sarif_bad = None /\
+  readable_dd w_dd = true /\ length (dd_spec w_dd) = 1.
+Proof. vm_compute. repeat split; reflexivity. Qed.
 (** foreign runs next to CodeQL runs do not disturb the CodeQL findings *)
 Theorem C12_codeql_foreign_runs : forall runs1 runs2,
   codeql_spec (JObj [(s_runs, JArr (runs1 ++ runs2))]) =
